@@ -140,6 +140,25 @@ func FormatInput(seed uint64) []byte {
 			}
 		}
 	}
+	if r.Chance(1, 8) {
+		// legacy-encoded (GBK / Latin-1) text inside descriptions, strings and
+		// comments: runs of bytes that are not valid UTF-8
+		runs := []string{"\xd6\xd0\xce\xc4", "\xc3\x28", "\xff", "\xa0\xa1", "caf\xe9", "\xfe\xff\xfe", "\xe6\xb6", "\xf0\x9f\x98"}
+		for k := 0; k < 1+r.Intn(3); k++ {
+			pos := r.Intn(len(toks))
+			t := toks[pos]
+			switch {
+			case len(t) >= 2 && t[0] == '`':
+				toks[pos] = "`" + r.Pick(runs) + t[1:]
+			case len(t) >= 2 && t[0] == '"':
+				toks[pos] = "\"" + r.Pick(runs) + t[1:]
+			case strings.HasPrefix(t, "//"):
+				toks[pos] = t + " " + r.Pick(runs)
+			default:
+				toks = append(toks[:pos], append([]string{"// " + r.Pick(runs)}, toks[pos:]...)...)
+			}
+		}
+	}
 	if r.Chance(1, 5) {
 		return []byte(strings.Join(toks, " "))
 	}
